@@ -271,7 +271,7 @@ def handler_tables(sess):
     return out
 
 
-def explore_decoder(sess, name, handler, render=True, extra_setup=None):
+def explore_decoder(sess, name, handler, render=True, extra_setup=None, window_name=None):
     """all paths of handler(parser, events) followed by str(result)."""
     it = sess.it
     vn = VnodeContract(it)
@@ -289,7 +289,7 @@ def explore_decoder(sess, name, handler, render=True, extra_setup=None):
         vn.calls = []
         w = Window(it, ctx)
         p = make_parser(it, ctx)
-        w.assume_shape(z3.IntVal(intern_str(name)), p.fields['trace_codes'])
+        w.assume_shape(z3.IntVal(intern_str(window_name or name)), p.fields['trace_codes'])
         holder['w'], holder['p'] = w, p
         if extra_setup:
             extra_setup(ctx, w, p)
